@@ -51,6 +51,14 @@ import (
 // quotas live in a GroupQuotaManager of their own, default/system stay in the default manager, pods parked in the default group are
 // moved by OnPodDelete + OnPodAdd (model: migrateAllMT); the theorem's hypotheses are not evaluated there.
 //
+// Armed known findings (single-manager cases only; the theorem's hypotheses are not evaluated there):
+//   stream Q1 (idx%10==7)  C19:quota-double-charge-after-namespace-unclaim: quota 3 claims namespace 90 with unlabelled pods in it, gives the
+//          claim up (or hands it to quota 4); the next update of each pod files it under its new group while quota 3 keeps it.
+//   stream Q3 (idx%10==8)  C19:quota-stale-cached-pod-migration: a pod labelled 7 (missing) held by the default group changes its label to 8
+//          (missing); then quota 8 or quota 7 appears and the migration tick resolves the CACHED first object.
+// The oracle removes exactly the expected wrong charge from the live snapshot (the groups on its path are then compared in pod set and self
+// figures only), demands everything else under the generic fingerprints, and reports the armed fingerprint when only that class remains.
+//
 // Strict generator = the decidable hypotheses of the theorem (Model/C19QuotaSpec.lean okStep); VERIF_C19Q_FREE=1 lifts them
 // (manual runs only; shows the races listed in props/C19.json).
 
@@ -89,6 +97,16 @@ type c19qWorld struct {
 	dead   bool
 	multi  bool // stream M: MultiQuotaTree on, the case's quotas carry a tree id of their own
 	first  map[int]*c19qPod // the object the caching group saw first (QuotaInfo.PodCache never refreshes it)
+	// armed known findings (streams Q1 / Q3): what the live plugin is EXPECTED to get wrong, so that the oracle can
+	// name exactly that class and still demand everything else
+	armed     string
+	cutFailed bool
+	leak      map[[2]int]int64 // Q1: (group, pod) -> request: the group keeps the pod although it resolves elsewhere and is filed there too
+	stale     map[int]int      // Q3: pod -> the group the live plugin holds it in by its CACHED first object
+	frozenPod map[int]bool     // no further events for these pods
+	frozenNs  map[int]bool     // no further claims on these namespaces
+	noCreate  map[int]bool     // quota names that must not appear
+	noDel     map[int]bool     // quotas that must stay
 }
 
 func c19qName(idx, i int) string {
@@ -429,7 +447,7 @@ func (w *c19qWorld) migrate(c int) {
 func (w *c19qWorld) freeNs() []int {
 	var out []int
 	for _, n := range []int{3, 4, 5, 6, 7, 8, 90} {
-		if w.claimant(n) == 0 {
+		if w.claimant(n) == 0 && !w.frozenNs[n] {
 			out = append(out, n)
 		}
 	}
@@ -469,7 +487,7 @@ func (w *c19qWorld) opQuotaAdd() bool {
 	}
 	var cand []int
 	for n := 3; n <= 8; n++ {
-		if w.quotas[n] == nil {
+		if w.quotas[n] == nil && !w.noCreate[n] {
 			cand = append(cand, n)
 		}
 	}
@@ -492,7 +510,7 @@ func (w *c19qWorld) opQuotaAdd() bool {
 		ps := w.parents()
 		q.parent = ps[r.Intn(len(ps))]
 		fr := w.freeNs()
-		if r.Chance(1, 3) && w.claimant(n) == 0 {
+		if r.Chance(1, 3) && w.claimant(n) == 0 && !w.frozenNs[n] {
 			q.own = true
 			w.h.Tag("q:own-namespace")
 		}
@@ -593,7 +611,7 @@ func (w *c19qWorld) opQuotaDelete() bool {
 			}
 		}
 		_ = q
-		if ok {
+		if ok && !w.noDel[n] {
 			cand = append(cand, n)
 		}
 	}
@@ -674,7 +692,7 @@ func (w *c19qWorld) opPodUpdate(forceBind int) bool {
 		id = forceBind
 	}
 	old := w.pods[id]
-	if !w.free && !w.atHome(id) {
+	if w.frozenPod[id] || (!w.free && !w.atHome(id)) {
 		return false
 	}
 	n := *old
@@ -750,8 +768,11 @@ func (w *c19qWorld) opPodDelete() bool {
 		return false
 	}
 	id := ids[r.Intn(len(ids))]
-	if !w.free && !w.atHome(id) {
+	if w.frozenPod[id] {
 		return false
+	}
+	if !w.atHome(id) {
+		w.h.Tag("p:del-while-parked-in-default-group") // covered by the theorem since fix 931f7a3
 	}
 	p := w.pods[id]
 	delete(w.pods, id)
@@ -771,7 +792,7 @@ func (w *c19qWorld) opPodDelete() bool {
 
 func (w *c19qWorld) opReserve(id int, un bool) bool {
 	p := w.pods[id]
-	if !w.free && !w.atHome(id) {
+	if w.frozenPod[id] || (!w.free && !w.atHome(id)) {
 		return false
 	}
 	if un {
@@ -995,7 +1016,7 @@ func (w *c19qWorld) cut() {
 		return
 	}
 	w.migrate(0)
-	if !w.free && !w.multi {
+	if !w.free && !w.multi && w.armed == "" {
 		w.h.Op("quota hyp")
 		w.h.Obs("hyp 1")
 	}
@@ -1005,11 +1026,101 @@ func (w *c19qWorld) cut() {
 	if w.dead {
 		return
 	}
-	if !w.free && !w.multi && shape != "L" {
+	if !w.free && !w.multi && w.armed == "" && shape != "L" {
 		w.h.Op("quota hypd")
 		w.h.Obs("hypd 1")
 	}
 	live, fresh := w.snapshot(w.live), w.snapshot(w.fresh)
+	// armed classes: take the EXPECTED wrong charge out of the live snapshot; the groups on its path are compared in their pod
+	// sets and self figures only (their hierarchical figures carry the surplus)
+	taint := map[int]bool{}
+	taintPath := func(n int) {
+		for n > 2 {
+			taint[n] = true
+			q := w.quotas[n]
+			if q == nil {
+				return
+			}
+			n = q.parent
+		}
+		if n == 1 || n == 2 {
+			taint[n] = true
+		}
+	}
+	selfAdj := func(o *c19qObs, req int64, asg bool, sign int64) {
+		for k, amt := range []int64{req, req * 1024} {
+			o.fig[k][3] += sign * amt
+			if asg {
+				o.fig[k][2] += sign * amt
+			}
+		}
+	}
+	q1, q3 := 0, 0
+	var lkeys [][2]int
+	for key := range w.leak {
+		lkeys = append(lkeys, key)
+	}
+	sort.Slice(lkeys, func(i, j int) bool { return lkeys[i][0] < lkeys[j][0] || (lkeys[i][0] == lkeys[j][0] && lkeys[i][1] < lkeys[j][1]) })
+	for _, key := range lkeys {
+		x, id := key[0], key[1]
+		l := live[x]
+		if l == nil { // the group was deleted since: the surplus went with it
+			delete(w.leak, key)
+			continue
+		}
+		asg, ok := l.pods[id]
+		second := false
+		for n, o := range live {
+			if _, ok2 := o.pods[id]; ok2 && n != x {
+				second = true
+			}
+		}
+		if !ok || !second {
+			continue
+		}
+		delete(l.pods, id)
+		selfAdj(l, w.leak[key], asg, -1)
+		taintPath(x)
+		q1++
+	}
+	var sids []int
+	for id := range w.stale {
+		sids = append(sids, id)
+	}
+	sort.Ints(sids)
+	for _, id := range sids {
+		at, to := w.stale[id], w.res(w.pods[id])
+		la, lb := live[at], live[to]
+		if at == to || la == nil || lb == nil {
+			continue
+		}
+		asg, ok := la.pods[id]
+		if _, dup := lb.pods[id]; !ok || dup {
+			continue
+		}
+		delete(la.pods, id)
+		lb.pods[id] = asg
+		selfAdj(la, w.pods[id].req, asg, -1)
+		selfAdj(lb, w.pods[id].req, asg, +1)
+		taintPath(at)
+		taintPath(to)
+		q3++
+	}
+	defer func() {
+		// reached the end without a generic failure: what remains is exactly the armed class
+		if w.cutFailed {
+			return
+		}
+		if q1 > 0 {
+			w.h.Tag("armed:Q1-manifested")
+			w.h.Fail("C19:quota-double-charge-after-namespace-unclaim", "%d pod(s) stay charged to the group that gave up their namespace AND are filed under their new group by their next update; the rebuilt ledger charges only the new group (shape %s)", q1, shape)
+		}
+		if q3 > 0 {
+			w.h.Tag("armed:Q3-manifested")
+			w.h.Fail("C19:quota-stale-cached-pod-migration", "%d pod(s) whose quota label changed while the default group held them are resolved by the cached first object at the migration tick: live group != rebuilt group (shape %s)", q3, shape)
+		}
+	}()
+	w.cutFailed = true
 	var ids []int
 	for n := range live {
 		ids = append(ids, n)
@@ -1044,6 +1155,11 @@ func (w *c19qWorld) cut() {
 			w.h.Fail("C19:quota-rebuilt-dead-pod-charged:"+shape, "quota %d caches %d pods live, %d rebuilt (a pod that no longer exists is charged)", n, len(l.pods), len(f.pods))
 			return
 		}
+		if taint[n] {
+			for k := 0; k < 2; k++ { // self figures only
+				l.fig[k][0], l.fig[k][1], l.fig[k][4] = f.fig[k][0], f.fig[k][1], f.fig[k][4]
+			}
+		}
 		if l.fig != f.fig {
 			w.h.Fail("C19:quota-rebuilt-figures-differ:"+shape, "quota %d [used request selfUsed selfRequest childRequest] x [cpu mem]: live %v rebuilt %v", n, l.fig, f.fig)
 			return
@@ -1066,8 +1182,129 @@ func (w *c19qWorld) cut() {
 			return
 		}
 	}
+	w.cutFailed = false
 	if len(w.pods) >= 2 && len(w.quotas) >= 2 {
 		w.h.Nontrivial()
+	}
+}
+
+// ---- armed streams
+
+func (w *c19qWorld) addPodRaw(label, ns int, bound bool) *c19qPod {
+	p := &c19qPod{id: w.nextP, label: label, ns: ns, req: int64(w.r.Range(1, 16)) * 250, rv: 1, node: bound}
+	w.nextP++
+	w.mkPod(p)
+	w.pods[p.id] = p
+	w.loc[p.id] = w.res(p)
+	w.first[p.id] = p
+	w.podAdd(0, p)
+	return p
+}
+
+func (w *c19qWorld) updatePodRaw(id int, f func(n *c19qPod)) {
+	old := w.pods[id]
+	n := *old
+	n.rv++
+	f(&n)
+	w.mkPod(&n)
+	w.h.Op("quota pupd 0 %s %s", old.toks(), n.toks())
+	w.pods[id] = &n
+	if n.node {
+		delete(w.resvd, id)
+	}
+	w.call(0, func(pl *Plugin) { pl.OnPodUpdate(old.obj, n.obj) })
+}
+
+func (w *c19qWorld) addQuotaRaw(n int, nss []int) *c19qQuota {
+	q := &c19qQuota{name: n, max: [2]int64{int64(w.r.Range(4, 40)) * 500, int64(w.r.Range(4, 40)) * 500 * 1024}, nss: nss}
+	ps := w.parents()
+	q.parent = ps[w.r.Intn(len(ps))]
+	w.mkQuota(q)
+	w.quotas[n] = q
+	w.quotaPut(0, q, 1, nil)
+	return q
+}
+
+// armQ1: known finding C19:quota-double-charge-after-namespace-unclaim.  Quota 3 claims namespace 90, unlabelled pods live there;
+// the claim is given up (a) or handed to quota 4 (b); the next update event of each pod files it under its new group while quota 3
+// keeps it.
+func (w *c19qWorld) armQ1() {
+	r := w.r
+	w.armed = "Q1"
+	w.h.Tag("stream:Q1-armed-namespace-unclaim")
+	w.frozenNs[90] = true
+	x := w.addQuotaRaw(3, []int{90})
+	var mine []int
+	for i, n := 0, r.Range(1, 2); i < n && !w.dead; i++ {
+		mine = append(mine, w.addPodRaw(0, 90, r.Bool()).id)
+	}
+	for i, n := 0, r.Range(0, 4); i < n && !w.dead; i++ {
+		w.step()
+	}
+	if w.dead || w.quotas[3] != x {
+		return
+	}
+	// the armed quota-object change
+	old := x.obj
+	var keep []int
+	for _, n := range x.nss {
+		if n != 90 {
+			keep = append(keep, n)
+		}
+	}
+	x.nss = keep
+	w.mkQuota(x)
+	w.quotaPut(0, x, 2, old)
+	if r.Bool() && w.quotas[4] == nil && !w.dead {
+		w.h.Tag("armed:Q1-claim-handed-to-another-quota")
+		w.addQuotaRaw(4, []int{90})
+	}
+	_ = mine
+	for _, id := range w.pids() { // every unlabelled pod of the namespace that quota 3 caches, also those the random steps added
+		p := w.pods[id]
+		if w.dead || p.label != 0 || p.ns != 90 || w.loc[id] != 3 {
+			continue
+		}
+		w.frozenPod[id] = true
+		w.leak[[2]int{3, id}] = p.req
+		w.updatePodRaw(id, func(n *c19qPod) {
+			if !n.node && !n.term && r.Bool() {
+				n.node = true
+			}
+		})
+		w.loc[id] = w.res(w.pods[id])
+	}
+}
+
+// armQ3: known finding C19:quota-stale-cached-pod-migration.  A pod labelled 7 (missing) is held by the default group, its label
+// changes to 8 (missing); then quota 8 appears (the pod stays in the default group live, the rebuilt ledger charges 8) or quota 7
+// appears (the migration moves it to 7 by the cached object, the rebuilt ledger charges the default group).
+func (w *c19qWorld) armQ3() {
+	r := w.r
+	w.armed = "Q3"
+	w.h.Tag("stream:Q3-armed-stale-cached-label")
+	w.noCreate[7], w.noCreate[8] = true, true
+	p := w.addPodRaw(7, []int{5, 90}[r.Intn(2)], r.Bool())
+	w.frozenPod[p.id] = true
+	for i, n := 0, r.Range(0, 4); i < n && !w.dead; i++ {
+		w.step()
+	}
+	if w.dead {
+		return
+	}
+	w.updatePodRaw(p.id, func(n *c19qPod) { n.label = 8 })
+	if r.Bool() {
+		w.h.Tag("armed:Q3-new-label-quota-appears")
+		w.addQuotaRaw(8, nil)
+		w.stale[p.id] = 1
+	} else {
+		w.h.Tag("armed:Q3-old-label-quota-appears")
+		w.addQuotaRaw(7, nil)
+		w.noDel[7] = true
+		w.stale[p.id] = 7
+	}
+	if !w.dead {
+		w.migrate(0)
 	}
 }
 
@@ -1093,7 +1330,8 @@ func TestVerifC19Quota(t *testing.T) {
 			continue
 		}
 		w := &c19qWorld{t: t, h: h, r: r, idx: idx, newPl: newPl, quotas: map[int]*c19qQuota{}, pods: map[int]*c19qPod{},
-			resvd: map[int]bool{}, loc: map[int]int{}, first: map[int]*c19qPod{}, nextP: 1, free: free}
+			resvd: map[int]bool{}, loc: map[int]int{}, first: map[int]*c19qPod{}, nextP: 1, free: free,
+			leak: map[[2]int]int64{}, stale: map[int]int{}, frozenPod: map[int]bool{}, frozenNs: map[int]bool{}, noCreate: map[int]bool{}, noDel: map[int]bool{}}
 		restore := func() {}
 		if idx%5 == 4 { // stream M
 			w.multi = true
@@ -1108,7 +1346,14 @@ func TestVerifC19Quota(t *testing.T) {
 		w.observe(w.live)
 		nops := r.Range(12, 40)
 		mid := r.Range(4, nops-1)
-		if idx%3 == 0 { // scripted start: a bound / pending pod names a quota that is created later
+		switch {
+		case w.multi || free:
+		case idx%10 == 7:
+			w.armQ1()
+		case idx%10 == 8:
+			w.armQ3()
+		}
+		if idx%3 == 0 && w.armed == "" { // scripted start: a bound / pending pod names a quota that is created later
 			lbl := 3 + r.Intn(3)
 			p := &c19qPod{id: w.nextP, label: lbl, ns: 90, req: int64(r.Range(1, 16)) * 250, rv: 1, node: r.Bool()}
 			w.nextP++
@@ -1182,7 +1427,8 @@ func TestVerifC19QuotaExhaustive(t *testing.T) {
 					continue
 				}
 				w := &c19qWorld{t: t, h: h, r: r, idx: idx, newPl: newPl, quotas: map[int]*c19qQuota{}, pods: map[int]*c19qPod{},
-					resvd: map[int]bool{}, loc: map[int]int{}, first: map[int]*c19qPod{}, free: true}
+					resvd: map[int]bool{}, loc: map[int]int{}, first: map[int]*c19qPod{}, free: true,
+					leak: map[[2]int]int64{}, stale: map[int]int{}, frozenPod: map[int]bool{}, frozenNs: map[int]bool{}, noCreate: map[int]bool{}, noDel: map[int]bool{}}
 				qa := &c19qQuota{name: 3, max: [2]int64{8000, 8000 * 1024}}
 				qb := &c19qQuota{name: 4, max: [2]int64{8000, 8000 * 1024}, nss: []int{90}}
 				w.mkQuota(qa)
